@@ -30,6 +30,9 @@ func propC04(c *Ctx) {
 	c.ruleMemoCoverage("C04-MEMO-KEY-COVERS")
 	// a check that walks a list must look at every element of it
 	c.ruleLoopsCoverAll("C04-LOOPS-COVER-ALL")
+	// ToJson and ToJsonIndent give the same document only if serialising changes nothing but once-only lazy state
+	c.ruleMarshalPurity("C04-MARSHAL-PURITY")
+	c.ruleOnceGuardedReads("C04-ONCE-GUARDED-READS")
 }
 
 func (c *Ctx) ruleAccessorPair() {
